@@ -113,14 +113,20 @@ static int run(const char *tname, unsigned seed, bool thorough) {
   Grid<T> grid(pts);
   std::vector<std::array<T, 2>> vc;
   for (size_t i = 0; i + 1 < n; i++) vc.push_back({static_cast<T>(static_cast<int>(rng() % 9) - 4) / 8, static_cast<T>(static_cast<int>(rng() % 5) - 2) / 4});
-  const Shared<T> sh(grid, knots, Spline<T, 1>(Support<T>::createWholeGrid(grid), vc));
+  const Shared<T> sh0(grid, knots, Spline<T, 1>(Support<T>::createWholeGrid(grid), vc));
   const unsigned rounds = thorough ? 400 : 120;
   int failures = 0;
   for (unsigned nthreads : {2u, 3u, 4u, 8u, 16u}) {
-    // sequential reference
+    // sequential reference (on its own set of shared objects)
     std::vector<std::vector<uint64_t>> ref;
-    for (unsigned t = 0; t < nthreads; t++) ref.push_back(work(sh, t, rounds));
+    for (unsigned t = 0; t < nthreads; t++) ref.push_back(work(sh0, t, rounds));
     for (unsigned rep = 0; rep < (thorough ? 6u : 2u); rep++) {
+      // the objects shared by the concurrent run are FRESH: nothing has been called on them yet, so lazily
+      // initialised or cached state (if any) is first touched concurrently; on odd repetitions the generator
+      // and the splines are copies of the reference objects (copies share whatever the originals share)
+      const Shared<T> fresh(grid, knots, Spline<T, 1>(Support<T>::createWholeGrid(grid), vc));
+      const Shared<T> copied(sh0);
+      const Shared<T> &sh = (rep % 2 == 0) ? fresh : copied;
       std::vector<std::vector<uint64_t>> got(nthreads);
       std::vector<std::thread> th;
       std::atomic<unsigned> go{0};
